@@ -222,7 +222,7 @@ Definition ref_status_line (ms : bool) (l : list N) : ref_start_resp * rres unit
 
 (* remove trailing SP / HTAB / CR / LF *)
 Definition rtrim (l : list N) : list N :=
-  rev (drop_while is_trim (rev l)).
+  rev' (drop_while is_trim (rev' l)).
 
 (* what a physical header line (or folded group of lines) turns out to be *)
 Inductive rline :=
@@ -285,9 +285,9 @@ Fixpoint ref_value_lines (voff : nat) (racc : list N) (off : nat) (l : list N) :
               | [] => RPart
               | b3 :: _ =>
                   if ws b3 then ref_value_lines voff (10%N :: 13%N :: racc) (2 + off) r2
-                  else ROk (Sub voff (rev (drop_while is_trim racc))) (2 + off) r2
+                  else ROk (Sub voff (rev' (drop_while is_trim racc))) (2 + off) r2
               end
-            else ROk (Sub voff (rev (drop_while is_trim racc))) (2 + off) r2
+            else ROk (Sub voff (rev' (drop_while is_trim racc))) (2 + off) r2
         end
       else if is 10 b then
         if fold then
@@ -295,9 +295,9 @@ Fixpoint ref_value_lines (voff : nat) (racc : list N) (off : nat) (l : list N) :
           | [] => RPart
           | b3 :: _ =>
               if ws b3 then ref_value_lines voff (10%N :: racc) (S off) r
-              else ROk (Sub voff (rev (drop_while is_trim racc))) (S off) r
+              else ROk (Sub voff (rev' (drop_while is_trim racc))) (S off) r
           end
-        else ROk (Sub voff (rev (drop_while is_trim racc))) (S off) r
+        else ROk (Sub voff (rev' (drop_while is_trim racc))) (S off) r
       else
         rbind (ref_invalid ignore HeaderValue off l) (fun _ o r => ROk (Ext [255%N]) o r)
         (* a dropped line: flagged to the caller by the impossible slice Ext [255] *)
